@@ -124,3 +124,18 @@ Print Assumptions C09_align_ext.
 Print Assumptions C09_call_two_runs_compose.
 Print Assumptions C09_call_result_anchored.
 Print Assumptions C09_dict_two_runs_compose.
+
+(* `x in snapshot(<value that is no list display>)` (Model/CollReplace.v): approving fix first (it writes a list display holding every old member and the missing tested values) and trim in the next run
+   (element-wise on that list: the members that were tested survive) leaves the same MEMBERS as approving both together ... *)
+From V Require Model.CollReplace Proofs.CollReplaceProofs.
+Theorem C09_coll_replace_fix_then_trim_same_members :
+  forall (is_set : bool) (old tested : list Z) (v : Z), In v (CollReplaceProofs.fix_then_trim is_set old tested) <-> In v tested.
+Proof. exact CollReplaceProofs.fix_then_trim_same_members. Qed.
+Print Assumptions C09_coll_replace_fix_then_trim_same_members.
+
+(* ... but not always in the same order: "identical syntax tree" is refuted for members tested in another order than they stand in the display (witness: (1, 2) tested with 3, 2) *)
+Theorem C09_coll_replace_order_differs_refuted :
+  exists (old tested nv : list Z),
+    CollReplace.coll_replace false true false old tested = CollReplace.Repl true nv /\ CollReplaceProofs.fix_then_trim false old tested <> nv.
+Proof. exact CollReplaceProofs.fix_then_trim_order_differs. Qed.
+Print Assumptions C09_coll_replace_order_differs_refuted.
